@@ -120,6 +120,127 @@ func c04Row(n int64) int {
 	return len(cyclicGroups)
 }
 
+// ---------------------------------------------------------------- C04 (1b): several iterators alive at the same time
+//
+// sx keeps many iterators alive together: the port iterator is parked on its channel while an address iterator is
+// created and walked for every port (and both may have the same size). Each of them must still be a permutation.
+
+type c04Op struct {
+	New   int64 `json:"new_iterator_of_size,omitempty"` // >0: create an iterator of this size
+	Iter  int   `json:"advance_iterator,omitempty"`     // else: advance iterator number Iter (mod live) ...
+	Steps int   `json:"steps,omitempty"`                // ... by this many values
+}
+
+type c04InterleaveCase struct {
+	Seed int64   `json:"rand_seed"`
+	Ops  []c04Op `json:"ops"`
+}
+
+type c04Live struct {
+	n     int64
+	it    *rangeIterator
+	seen  []bool
+	count int64
+	done  bool
+}
+
+func (l *c04Live) take(k int, id int) error {
+	for ; k > 0 && !l.done; k-- {
+		if l.count > 0 { // the first value is available without Next
+			if !l.it.Next() {
+				l.done = true
+				break
+			}
+		}
+		v := l.it.Int()
+		if !v.IsInt64() || v.Int64() < 1 || v.Int64() > l.n {
+			return fmt.Errorf("iterator #%d (n=%d): value %s outside 1..n after %d values", id, l.n, v.String(), l.count)
+		}
+		if l.seen[v.Int64()-1] {
+			return fmt.Errorf("iterator #%d (n=%d): value %d repeated after %d values", id, l.n, v.Int64(), l.count)
+		}
+		l.seen[v.Int64()-1] = true
+		l.count++
+		if l.count > l.n {
+			return fmt.Errorf("iterator #%d (n=%d): more than n values", id, l.n)
+		}
+	}
+	return nil
+}
+
+func TestC04Interleaved(t *testing.T) {
+	kit.Run(t, kit.Spec[c04InterleaveCase]{
+		Prop: "C04",
+		Rule: "histories of 2..40 operations {create an iterator of size n (n from a pool of 1..3 sizes in 1..70000, so equal sizes recur), advance a live iterator by 1..2n values}; at the end every iterator is drained. Oracle per iterator: values in 1..n, none repeated, exactly n of them, whatever the other iterators did in between. non-trivial: two iterators of the same size alive together; distinct by case",
+		Gen: func(t *rapid.T) c04InterleaveCase {
+			np := rapid.IntRange(1, 3).Draw(t, "pool")
+			pool := make([]int64, np)
+			for i := range pool {
+				switch rapid.IntRange(0, 3).Draw(t, "size-class") {
+				case 0:
+					pool[i] = int64(rapid.IntRange(1, 16).Draw(t, "n"))
+				case 1:
+					pool[i] = int64(rapid.IntRange(17, 256).Draw(t, "n"))
+				case 2:
+					pool[i] = int64(rapid.IntRange(257, 5000).Draw(t, "n"))
+				default:
+					pool[i] = int64(rapid.IntRange(5001, 70000).Draw(t, "n"))
+				}
+			}
+			c := c04InterleaveCase{Seed: rapid.Int64().Draw(t, "seed")}
+			nops := rapid.IntRange(2, 40).Draw(t, "nops")
+			live := 0
+			for i := 0; i < nops; i++ {
+				if live == 0 || rapid.IntRange(0, 2).Draw(t, "op") == 0 {
+					c.Ops = append(c.Ops, c04Op{New: pool[kit.Uniform(t, "which", np)]})
+					live++
+					continue
+				}
+				k := kit.Uniform(t, "iter", live)
+				steps := rapid.SampledFrom([]int{1, 2, 3, 10, 100, 1000, 200000}).Draw(t, "steps")
+				c.Ops = append(c.Ops, c04Op{Iter: k, Steps: steps})
+			}
+			return c
+		},
+		Check: func(c c04InterleaveCase) *kit.Verdict {
+			v := &kit.Verdict{}
+			rand.Seed(c.Seed)
+			var live []*c04Live
+			for _, op := range c.Ops {
+				if op.New > 0 {
+					it, err := newRangeIterator(op.New)
+					if err != nil {
+						return v.Failf("n=%d rejected: %v", op.New, err)
+					}
+					for _, l := range live {
+						if l.n == op.New && !l.done && l.count < l.n {
+							v.NonTrivial = true
+						}
+					}
+					live = append(live, &c04Live{n: op.New, it: it, seen: make([]bool, op.New)})
+					continue
+				}
+				id := op.Iter % len(live)
+				if err := live[id].take(op.Steps, id); err != nil {
+					v.Err = err
+					return v
+				}
+			}
+			for id, l := range live {
+				if err := l.take(int(l.n)+2, id); err != nil {
+					v.Err = err
+					return v
+				}
+				if l.count != l.n {
+					return v.Failf("iterator #%d (n=%d): iteration stopped after %d values", id, l.n, l.count)
+				}
+			}
+			v.Units = len(live)
+			return v
+		},
+	})
+}
+
 // full walks of the large groups (thorough tier): n = 2^k and n = P-1
 func TestC04FullWalk(t *testing.T) {
 	m := kit.NewManual(t, "C04", "one full walk of the iterator per listed size (sizes given by the driver in C04_WALK as k: n=2^k, or pK: n=P-1 of row K), bitmap oracle; non-trivial always")
